@@ -320,6 +320,8 @@ extern "C" void __sanitizer_cov_trace_pc_guard(uint32_t* guard)
 // ------------------------------------------------------------------------------------------------
 // replaced global allocation functions
 // ------------------------------------------------------------------------------------------------
+// ThreadSanitizer's runtime defines these strongly; the tsan flavour therefore keeps its allocator (no allocation faults there)
+#ifndef SIM_NO_NEW_REPLACEMENT
 void* operator new(size_t n) { return sim::sim_alloc(n, 0, false); }
 void* operator new[](size_t n) { return sim::sim_alloc(n, 0, false); }
 void* operator new(size_t n, const std::nothrow_t&) noexcept { try { return sim::sim_alloc(n, 0, true); } catch (...) { return nullptr; } }
@@ -338,6 +340,7 @@ void operator delete(void* p, size_t, std::align_val_t) noexcept { sim::sim_free
 void operator delete[](void* p, size_t, std::align_val_t) noexcept { sim::sim_free(p); }
 void operator delete(void* p, const std::nothrow_t&) noexcept { sim::sim_free(p); }
 void operator delete[](void* p, const std::nothrow_t&) noexcept { sim::sim_free(p); }
+#endif
 
 // sanitizer defaults (non-inline, used)
 extern "C" __attribute__((used)) const char* __asan_default_options()
